@@ -445,6 +445,7 @@ var applied = map[string]bool{}
 var baseAssumptions = []string{
 	"integers are mathematical (no 64-bit wrap-around)",
 	"[]byte and string contents are immutable values; byte slices are identified by object reference",
+	"slice parameters and slices stored in objects that exist at function entry do not partially overlap one another (each is identified by its backing reference, offset 0)",
 	"termination is not proved",
 	"goroutine interleavings are not modelled (sequential semantics)",
 	"cryptographic primitives are idealised (DESIGN.md section 4): Ed25519 verify/sign as an uninterpreted relation with sign-verifies, X25519 symmetric agreement, AEAD and KMS wrappers open only under the same key and additional data, hash/encoding functions injective",
